@@ -40,7 +40,8 @@ func isBlankText(t string) bool {
 
 var timeTokRe = regexp.MustCompile(`^<?\d{1,2}:\d{2}(am|pm)?>?$`)
 var durTokRe = regexp.MustCompile(`^[-+]?(\d+h)?(\d+m)?$`)
-var placeholderRe = regexp.MustCompile(`^(.*?)(\?+)(.*)$`)
+// the placeholder of an open range: the ?-run right after "<indentation><start time> - " of an entry line
+var placeholderRe = regexp.MustCompile(`^([ \t]+<?\d{1,2}:\d{2}(?:am|pm)?>? *- *)(\?+)(.*)$`)
 
 func isDurTok(s string) bool {
 	return s != "" && s != "-" && s != "+" && durTokRe.MatchString(s)
